@@ -101,6 +101,17 @@ class P:
                     [("R", "a"), ("U", "!"), ("U", "-"), ("L", ""), ("F", "f"), ("M", ""), ("T", ""), ("B", "="), ("B", "+")]):
             sds = ["SD:%s:%s" % (k, hx(n)) for k, n in cfg]
             items.append((" ".join(sds + ["PARSE:" + hx(p) for p in deep_programs]), (set(cfg), len(sds), deep_programs)))
+        # several threads describing deep trees at the same moment (rounds of eight PARSE calls released together): whatever
+        # describe() keeps while it recurses must be per call - every thread gets the full rendering of its own tree
+        conc_programs = ["[" * 120 + "a" + "]" * 120, "f(" * 100 + "b" + ")" * 100, "!" * 200 + "c", "{1:" * 90 + "d" + "}" * 90,
+                         "- " * 150 + "a", "[" * 250 + "1" + "]" * 250, "c ? b : " * 80 + "a", "[-" * 60 + "b" + "]" * 60]
+        for cfg in ([], [("L", ""), ("R", "a")], [("U", "!"), ("U", "-"), ("F", "f")]):
+            sds = ["SD:%s:%s" % (k, hx(n)) for k, n in cfg]
+            ops, ps = [], []
+            for _r in range(25):
+                ops += ["||"] + ["PARSE:" + hx(p) for p in conc_programs] + [";;"]
+                ps += [None] + conc_programs + [None]
+            items.append((" ".join(sds + ops), (set(cfg), len(sds), ps)))
         for cfg in configs:
             sds = ["SD:%s:%s" % (k, hx(n)) for k, n in cfg]
             ps = list(PROGRAMS) if tier != "quick" else rng.sample(PROGRAMS[:30], 10) + rng.sample(PROGRAMS[30:], 3)
@@ -110,7 +121,7 @@ class P:
         return flow.mk_cases("desc", items)
 
     def show(self, case):
-        return {"descriptors": sorted(case.meta[0]), "programs": case.meta[2][:5]}
+        return {"descriptors": sorted(case.meta[0]), "programs": [p for p in case.meta[2] if p][:5]}
 
     def classify(self, case, impl):
         return impl.split(" ")[-1].split(":")[0]
@@ -128,6 +139,7 @@ class P:
         keys, nsd, ps = case.meta
         outs = impl.split(" ")[nsd:]
         for src, o in zip(ps, outs):
+            if src is None: continue          # a `||` / `;;` marker
             p = o.split(":")
             if p[0] == "ERR": continue
             if p[0] != "OK" or len(p) < 4 or p[3] == "PANIC":
